@@ -41,6 +41,9 @@ def proj_others(lib):
                 d[a] = getattr(b, a)
         if hasattr(b, "fields"):
             d["fields"] = [(f.key, f.value) for f in b.fields]
+        inner = getattr(b, "ignore_error_block", None)
+        if inner is not None and hasattr(inner, "fields"):
+            d["inner_fields"] = [(f.key, f.value) for f in inner.fields]      # a failed block is not an entry: nothing in it moves
         out.append(d)
     return out
 
@@ -51,6 +54,7 @@ def run_case(bib, kv, op, inplace, history=False):
     history=True: the entry has already been through all three middlewares (with other fields) and has been
     edited since, so it carries their parser metadata - the result must not depend on that."""
     M = bib.model
+    _define_subentry(bib)
     try:
         mw = make_mw(bib, op, inplace)
     except ValueError:
@@ -59,7 +63,9 @@ def run_case(bib, kv, op, inplace, history=False):
         return {"ctor": True, "raised": True, "out": [], "idem": True, "others": True, "exc": type(e).__name__}
     target = M.Entry("article", "Key1", [M.Field(k, v, i) for i, (k, v) in enumerate(kv)], start_line=3, raw="raw1")
     other = M.Entry("book", "zz", [M.Field("b", "1"), M.Field("A", "2"), M.Field("a", "3")], start_line=9, raw="raw2")
-    lib = bib.Library([M.Preamble("p"), target, M.String("B", "x"), M.ImplicitComment("c b a")])
+    dfk = M.DuplicateFieldKeyBlock({"b"}, M.Entry("misc", "dfk", [M.Field("b", "1"), M.Field("A", "2"), M.Field("b", "3"), M.Field("a", "4")], start_line=7, raw="raw3"))
+    sub = _SubEntry("article", "sub", [M.Field(k, v, i) for i, (k, v) in enumerate(kv)], start_line=11, raw="raw4") if _SubEntry else None
+    lib = bib.Library([M.Preamble("p"), target, M.String("B", "x"), M.ImplicitComment("c b a"), dfk] + ([sub] if sub else []))
     if history:
         target.fields = [M.Field("Zz", "0"), M.Field("b", "0")]
         mws = bib.middlewares
@@ -77,23 +83,52 @@ def run_case(bib, kv, op, inplace, history=False):
         target = lib.blocks[1]
         target.entry_type = "article"
         target.fields = [M.Field(k, v, i) for i, (k, v) in enumerate(kv)]
+    if sub is not None:
+        # an entry of an application-defined subclass of Entry holding the same fields: it is an entry like any other
+        lib.blocks[5].fields = [M.Field(k, v, i) for i, (k, v) in enumerate(kv)]
+    # a second entry that holds the very Field OBJECT the target starts with (objects may be shared between blocks): whatever
+    # happens to the target, that entry keeps its one field with its value ("changes no value")
+    shared = None
+    if kv and op["m"] == "normalize":
+        shared = lib.blocks[1].fields[0]
+        lib.add(M.Entry("book", "shares-a-field", [shared], start_line=20, raw="raw5"))
     before = proj_others(lib)
     try:
         lib2 = mw.transform(lib)
+        if shared is not None:
+            got_shared = [(f.key.lower(), f.value) for f in lib2.blocks[-1].fields]
+            if got_shared != [(kv[0][0].lower(), kv[0][1])]:
+                return {"ctor": True, "raised": False, "out": [[k, v] for k, v in got_shared], "idem": True, "others": False,
+                        "shared_field_entry": got_shared}
         e2 = lib2.blocks[1]
         out = [[f.key, f.value] for f in e2.fields]
+        if sub is not None:
+            out_sub = [[f.key, f.value] for f in lib2.blocks[5].fields] if len(lib2.blocks) > 5 and hasattr(lib2.blocks[5], "fields") else None
+            if out_sub != out:
+                out = out_sub if out_sub is not None else []      # reported like a wrong result for the plain entry
         lib3 = mw.transform(lib2)
         idem = [[f.key, f.value] for f in lib3.blocks[1].fields] == out
     except Exception as e:
         return {"ctor": True, "raised": True, "out": [], "idem": True, "others": True, "exc": type(e).__name__}
     after = proj_others(lib2)
-    others = (len(after) == len(before) and all(a == b for i, (a, b) in enumerate(zip(after, before)) if i != 1)
+    others = (len(after) == len(before) and all(a == b for i, (a, b) in enumerate(zip(after, before)) if i not in (1, 5, 6))
               and after[1]["cls"] == "Entry" and after[1]["key"] == "Key1" and after[1]["entry_type"] == "article"
               and after[1]["raw"] == "raw1" and after[1]["line"] == 3)
     if not inplace:
         others = others and [(f.key, f.value) for f in target.fields] == [tuple(x) for x in kv]
     del other
     return {"ctor": True, "raised": False, "out": out, "idem": idem, "others": others}
+
+
+_SubEntry = None
+
+
+def _define_subentry(bib):
+    global _SubEntry
+    if _SubEntry is None:
+        class SubEntry(bib.model.Entry):
+            """an application-defined kind of entry"""
+        _SubEntry = SubEntry
 
 
 _G = {}
